@@ -33,12 +33,14 @@ def main(argv):
     ap.add_argument('--runs', type=int, default=None)
     ap.add_argument('--workers', type=int, default=None)
     ap.add_argument('--log-digests', action='store_true')
+    ap.add_argument('--run-offset', type=int, default=0)
+    ap.add_argument('--deep', action='store_true')
     ap.add_argument('--no-evidence', action='store_true')
     a = ap.parse_args(argv)
     from sim import runner
     prop = a.prop.upper()
     if a.worker:
-        return runner.worker_main(prop, a.seed, a.start, a.stride, a.count, a.out, a.wallcap, a.log_digests)
+        return runner.worker_main(prop, a.seed, a.start, a.stride, a.count, a.out, a.wallcap, a.log_digests, a.run_offset, a.deep)
     if a.minimise:
         return runner.minimise_main(prop, a.minimise, a.out)
     if a.replay:
